@@ -163,6 +163,8 @@ def install(I):
 
     @reg('$conv_tuple')
     def _tuple(I, fr, args, kwargs):
+        if args and type(args[0]).__name__ == 'PArr':
+            return ArrTuple(args[0])
         return tuple(I.iterate(args[0], fr)) if args else ()
 
     @reg('$conv_list')
@@ -184,11 +186,17 @@ def install(I):
 
     @reg('$conv_set')
     def _set(I, fr, args, kwargs):
-        return set(I.iterate(args[0], fr)) if args else set()
+        items = list(I.iterate(args[0], fr)) if args else []
+        if all(ip.is_conc(x) for x in items):
+            return set(items)
+        return SymSet(items, frozen=False)
 
     @reg('$conv_frozenset')
     def _fset(I, fr, args, kwargs):
-        return frozenset(I.iterate(args[0], fr)) if args else frozenset()
+        items = list(I.iterate(args[0], fr)) if args else []
+        if all(ip.is_conc(x) for x in items):
+            return frozenset(items)
+        return SymSet(items, frozen=True)
 
     @reg('$conv_slice')
     def _slice(I, fr, args, kwargs):
@@ -312,13 +320,23 @@ def install(I):
     def py_hash(v, fr):
         """hash as an abstract value: equal abstract values <=> equal hashes assumed (K10)"""
         if isinstance(v, ip.Obj):
+            if getattr(v, 'key', None) is not None and not I._has_dunder(v, '__hash__'):
+                return ('leafhash', v.key)         # abstract leaf object: hash is a function of its equivalence class
             if I._has_dunder(v, '__hash__'):
                 return I.call(I._getattr(v, '__hash__', fr), [], {}, fr)
             return ('idhash', id(v))
-        if isinstance(v, (tuple, list)):
+        if isinstance(v, (list, set, dict)):
+            raise ip.PyRaise(I.make_exc('TypeError', "unhashable type: '%s'" % type(v).__name__))
+        if isinstance(v, frozenset):
+            return ('fset', tuple(py_hash(x, fr) for x in v))
+        if hasattr(v, 'pv_hash'):
+            return v.pv_hash(I, fr)
+        if isinstance(v, tuple):
             return ('hash', tuple(py_hash(x, fr) for x in v))
         if isinstance(v, (ip.ClassV, ip.ExtClass, TypeTag)):
             return ('clshash', id(v))
+        if isinstance(v, float) and (v != v or v in (float('inf'), float('-inf'))):
+            return ('val', repr(v))
         if isinstance(v, (bool, int, float, Fraction)) and not isinstance(v, bool) or isinstance(v, bool):
             return ('num', Fraction(v) if not isinstance(v, bool) else Fraction(int(v)))
         if isinstance(v, (S, C)):
@@ -602,6 +620,50 @@ class Partial(object):
         kw = dict(self.kwargs)
         kw.update(kwargs)
         return I.call(self.f, self.args + list(args), kw, fr)
+
+
+class ArrTuple(object):
+    """tuple(ndarray) of a 1-d array of symbolic length: the sequence of its values"""
+
+    def __init__(self, arr):
+        self.arr = arr
+        self.content, self.shape = arr.buf.content, arr.buf.shape
+
+    def pv_hash(self, I, fr):
+        return ('numseq', self)
+
+    def pv_len(self, I, fr):
+        return I.builtin_len(self.arr, fr) if hasattr(I, 'builtin_len') else self.shape[0]
+
+
+class SymSet(object):
+    """set / frozenset whose members are objects or symbolic values: kept as the list of its members (duplicates w.r.t. == are
+    not merged; contracts that depend on the cardinality must not use it)"""
+
+    def __init__(self, items, frozen):
+        self.items, self.frozen = list(items), frozen
+
+    def pv_iter(self, I, fr):
+        return list(self.items)
+
+    def pv_len(self, I, fr):
+        raise Unsupported('len of a set of symbolic members')
+
+    def pv_contains(self, I, fr, item):
+        return I.contains(tuple(self.items), item, fr)
+
+    def pv_hash(self, I, fr):
+        from . import interp as ip
+        if not self.frozen:
+            raise ip.PyRaise(I.make_exc('TypeError', "unhashable type: 'set'"))
+        return ('fset', tuple(I.py_hash(x, fr) for x in self.items))
+
+    def pv_eq(self, I, fr, o):
+        if not isinstance(o, SymSet):
+            return False
+        a = [I.contains(tuple(o.items), x, fr) for x in self.items]
+        b = [I.contains(tuple(self.items), x, fr) for x in o.items]
+        return core.s_and(*[core.sbool(x) for x in a + b]) if a + b else True
 
 
 class SymRange(object):
